@@ -111,7 +111,26 @@ func checkC02(c *Check) {
 	na := importRules(c, "C03", checkC03, "delivery-is-atomic: ", "S2 one-critical-section")
 	na += importRules(c, "C16", checkC16, "held-until-stale: ", "age-sources", "cleanup-guard-exact")
 	c.Floor("imported delivery-is-atomic / held-until-stale obligations", 5, na)
+	// "both halves reach the daemon" includes the hand-over of the login
+	// from the sshd worker: it gives up only when the worker is shut down
+	// (rules of C05)
+	nh := importRules(c, "C05", checkC05, "login-reaches-correlator: ", "handoff-only-cancellation-gives-up", "handoff-always-after-write")
+	c.Floor("imported login-reaches-correlator obligations", 6, nh)
 	isDelivered := func(e *Org) bool { return e != nil && e.K != "index" && e.K != "range" }
+	// what is held is the delivered event itself (the pointer the tracker was
+	// given), not a copy or a projection of it: the renderer and the
+	// end-of-session test read the held events, and a copy that leaves a
+	// field behind (the record type) silently changes both
+	nhold := 0
+	for _, f := range t.Of("append") {
+		if f.EP != "AuditdEvent" || f.E == nil {
+			continue
+		}
+		nhold++
+		okE := f.E.K == "param"
+		c.Cond(okE, "hold-keeps-event", fmt.Sprintf("event held in %s (%s)", f.Fn.Name(), f.EP), f.Pos(p), "the delivered event", "what is appended to the hold queue is "+trimOrg(f.E.String())+", not the delivered event: a copy or projection of the event is held, so fields that the renderer or the end-of-session test read later (record type, result, process) can be missing from the held events")
+	}
+	c.Floor("holds of a delivered event", 2, nhold)
 
 	// 1-3: callbacks of lookups keyed by the event's session
 	ncb := 0
